@@ -73,12 +73,12 @@ TECH = {
  'C04': 'pairing rule on the process table (register/remove) over CFG paths incl. exception edges, lexical raise-escape summaries, transient-status must-summaries with vacuous edges, reap sweep completeness',
  'C05': 'who-may-call check of blocking primitives over the resolved call graph from event-loop entry points, loop bound/variant detection, reply-count dataflow shared with C06',
  'C06': 'reply-count forward dataflow over the CFG of dispatch/handle_message (exactly one logical reply), case split on the send_resp flag through reaching definitions, error-discipline check on handlers, id propagation by expansion',
- 'C07': 'who-may-call (bind/listen/close only from the socket lifecycle) over the call graph, snapshot/alias check of the socket fd table by reaching definitions',
+ 'C07': 'who-may-call (bind/listen/close only from the socket lifecycle) over the call graph, snapshot/alias check of the socket fd table by reaching definitions, set algebra (with comprehension filters) of the socket names reloadconfig disposes of',
  'C08': 'must-pass-through on shutdown paths, decorator-order check, path-result analysis of Pidfile.validate (value vs None ends per handler and errno branch), signal table agreement',
  'C09': 'event/table pairing on CFG paths (spawn/reap/kill events dominate or are dominated by table updates), decoded exit-status guard tabulation, producer/consumer vocabulary agreement',
  'C10': 'lock typestate of the exclusive-command slot: acquire/release pairing on all exits incl. exception edges and callbacks, who-may-mutate call-graph check against @synchronized',
- 'C11': 'validate-before-apply ordering over the call graph, totality table of conversions vs validated types, raise-escape summaries of the apply phase, guard-assumption reachability of the unknown-key gate',
- 'C12': 'guard-assumption reachability on reload_from_config (replace iff diff beyond numprocesses), baseline update must-pass-through, copy-vs-alias check of remembered configurations',
+ 'C11': 'validate-before-apply ordering over the call graph, totality table of conversions vs validated types, raise-escape summaries of the apply phase, guard-assumption reachability of the unknown-key gate and of the refusals in validate',
+ 'C12': 'guard-assumption reachability on reload_from_config (replace iff diff beyond numprocesses), baseline update must-pass-through, copy-vs-alias check of remembered configurations, set algebra of the watcher name sets evaluated per element class',
  'C13': 'reaching-definition expansion of the returned argv with a shape grammar and per-shape path feasibility, regex structure of the substitution pattern (re._parser), keyword plumbing agreement Watcher -> Process -> Popen',
  'C14': 'guard tabulation of call_hook outcomes (eval of the pure outcome table), hook-result-used dataflow at each gate, documentation/code hook-name agreement, alias check of the ignore list',
  'C15': 'who-may-write check on watchers/_watchers_names, pairing of the two directories on all paths, case-normalisation agreement between writers and readers',
@@ -86,7 +86,7 @@ TECH = {
  'C17': 'label flow from registration to handler (structural agreement), attach-once guard, EOF/typestate of descriptors on CFG paths',
  'C18': 'receiver provenance by reaching-definition expansion (only table entries are signalled), request-form/sender selection by guard-assumption reachability, regex anchoring (re._parser) and lookup scope of to_signum',
  'C19': 'ordering key agreement (priority, reverse on stop), pacing must-pass-through between spawns, start exclusivity over the call graph',
- 'C20': 'ordering abstraction of the size test, affine form of the shift-loop indices and suffixes by expansion, remove-before-rename pairing, prefix shape by expansion',
+ 'C20': 'ordering abstraction of the size test, affine form of the shift-loop indices and suffixes by expansion, remove-before-rename pairing in both directions (who may delete a backup), prefix shape by expansion',
 }
 
 for c in checks:
@@ -109,11 +109,15 @@ manifest = {
         'name': 'circus-sa',
         'path': 'sa/',
         'serves_properties': [c['property_id'] for c in checks],
-        'kind_free_text': 'repository-specific static analyser (stdlib ast): statement CFG '
-                          'with exception edges and duplicated finally bodies, resolved call '
-                          'graph, must/may event summaries, guard truth tables, ordering and '
-                          'affine normal forms; thorough tier adds a sensitivity self-test on '
-                          'seeded scratch-copy variants and benign twins',
+        'kind_free_text': 'repository-specific static analyser (stdlib ast, circus is never '
+                          'imported or run): canonical form of the parsed source (renames, '
+                          'moved definitions, helper inlining, idiom normal forms), statement '
+                          'CFG with exception edges and duplicated finally bodies, resolved '
+                          'call graph, must/may event summaries, reaching definitions with '
+                          'expansion and path feasibility, guard truth tables, ordering and '
+                          'affine normal forms; the thorough tier re-runs the same static '
+                          'check on scratch copies with seeded breakages (must be reported) '
+                          'and benign twins (must be silent)',
     }],
     'checks': checks,
     'not_applicable': na,
